@@ -262,10 +262,12 @@ def body(c):
             continue
         for mdoc in mutants(d, EXEC_POOL if mode == "exec" else SDL_POOL, rng, 1):
             add(mode, "nearmiss", toks=mdoc, style=1)
-    # selection-set nesting around the documented limit
-    for depth in (1, 2, 32, 63, 64, 65, 66, 67, 100):
-        for shape in ("field", "inline", "mixed"):
-            add("deep", "deep", depth=depth, shape=shape, style=(0 if depth % 2 else 1))
+    # selection-set nesting around the documented limit (nesting = open selection sets - 1; limit 64): limit-1, limit,
+    # limit+1, 2*limit and a few small ones, built from fields / inline fragments / mixtures, in operations and fragments
+    for nesting in (0, 1, 31, 62, 63, 64, 65, 66, 128):
+        for shape in ("field", "inline", "inlineon", "mixed", "mixedon", "inlinelast", "fieldlast"):
+            for ctx in ("anon", "query", "frag"):
+                add("deep", "deep", depth=nesting + 1, shape=shape, ctx=ctx, style=(0 if nesting % 2 else 1))
     # (3) lexical level: strings, number / name runs, block strings inside a list value
     lex = set(texts.get("strings", [])) | set(texts.get("numbers", []))
     for rid, ts in texts.items():
@@ -314,11 +316,12 @@ def body(c):
     # vacuity: every sub-check must have exercised both sides of "exactly"
     def total(sub=None, cls=None, acc=None):
         return sum(n for (s, k, a), n in stats.items() if (sub is None or s == sub) and (cls is None or k == cls) and (acc is None or a == acc))
-    if total("valid", "member", "yes") < 100 or total("nearmiss", "nonmember") < 50 or total("exact", "nonmember") < 50 \
+    # (guards are about the run, not about the parser: they never replace a reported violation by a tool error)
+    if not c.violations and (total("valid", "member", "yes") < 100 or total("nearmiss", "nonmember") < 50 or total("exact", "nonmember") < 50 \
             or total("exact", "member") < 5 or total("lex", "member", "yes") < 50 or total("lex", "nonmember") < 50 \
-            or total(None, "illformed") < 5 or total("deep") < 9:
+            or total(None, "illformed") < 5 or total("deep", "member", "yes") < 60 or total("deep", "member", "no") < 60):
         raise vlib.ToolError("vacuous run: " + str(sorted(stats.items())))
-    if TREE_KINDS - kinds:
+    if not c.violations and TREE_KINDS - kinds:
         raise vlib.ToolError("vacuous run: tree entry kinds never compared: %s" % sorted(TREE_KINDS - kinds))
     c.cov["tree_entry_kinds_compared"] = len(kinds)
     c.cov["traces_validated_against_impl"] = len(obs)
@@ -331,7 +334,7 @@ def body(c):
                      "definitions, and the sub-grammars variable definitions, field definition, value, selection wrapped into a document): %s; "
                      "each rendered in %s styles with seeded ignored tokens (none where legal, spaces, tabs, commas, BOM, comments, LF/CR/CRLF, "
                      "also inside types and after `on`) and seeded name spellings; (2) every token sequence of length <=%d over two 11-token "
-                     "alphabets, seeded single-edit mutants of the valid sequences, selection sets nested 1..100 deep; (3) every code-point-class "
+                     "alphabets, seeded single-edit mutants of the valid sequences, selection-set nesting 0..128 around the limit 64 (7 shapes x 3 contexts); (3) every code-point-class "
                      "text of the lexer runs %s (quoted strings, number/name runs, block-string bodies) inside a list value. Every case is judged "
                      "by TLC (recogniser + denoted tree); all cases are non-trivial; distinct by (mode, tokens, gaps, text)"
                      % ("RunsQuick" if q else "RunsThorough", ndocs, "1-2" if q else "2", lp, "LRunsQuick" if q else "LRunsThorough"))
@@ -344,7 +347,7 @@ def body(c):
         "float literals: only the kind (float) and, for the tabulated literals 1.5 / 1e2 / 0.0, the value is compared (TLC has no floats)",
         "parse_query's documented extra checks (operation/fragment name uniqueness, lone anonymous operation, at least one operation) and "
         "parse_schema's (one root per operation type, query root present) are part of the expected behaviour because the result types cannot represent such documents",
-        "selection sets deeper than 64 may be rejected or accepted (documented deviation); duplicate keys of one input object literal are not generated (the tree is a map)",
+        "selection-set nesting is counted as parse_selection_set counts it (operation / fragment root = level 0): <= 64 must be accepted, > 64 must be rejected; duplicate keys of one input object literal are not generated (the tree is a map)",
         "one representative character per code-point class; control characters other than TAB/LF/CR and the Unicode BOM inside strings are not exercised",
         "the keyword-prefix structure of test names (truex = true+x ...) is tabulated in Grammar.tla (KwSplit) because TLC strings are atomic",
     ]
